@@ -16,6 +16,8 @@ type layoutCase struct {
 	pages  []string
 	data   map[string]model.Value
 	layout string
+	// reserve names of the layout
+	reserves []string
 }
 
 // genLayoutTree builds one layout with 1..3 reserves at random nesting
@@ -26,7 +28,8 @@ func genLayoutTree(c *core.Ctx, cfgIdx int) layoutCase {
 	t := newTree(cfg.dir, cfg.ext)
 	g := newStmtGen(r, stmtGenOpts{MaxDepth: 1 + r.Intn(3), IfHeavy: true, LoopHeavy: r.Intn(2) == 0})
 	layoutName := []string{"layouts/main", "layouts/base.v2", "shared/frame", "layouts/mail.min", "layouts/odd" + cfg.ext, "layouts/~base", "layouts/a~b", "layouts/sub/inner"}[r.Intn(8)]
-	reserves := fmtNames("r", 1+r.Intn(3))
+	// reserve names: plain, starting with or holding '~' (only layout and component names know the alias), dotted, differing in case
+	reserves := [][]string{{"r0", "r1", "r2"}, {"r0", "r1", "r2"}, {"~side", "a~b", "~"}, {"title", "Title", "t.1"}, {"layouts/x", "~r0", "r0"}}[r.Intn(5)][:1+r.Intn(3)]
 	body := g.program(2 + r.Intn(4))
 	body = insertReserves(r, body, reserves)
 	// the layout and the insert blocks run in one scope: what an insert assigns is seen further down
@@ -35,7 +38,7 @@ func genLayoutTree(c *core.Ctx, cfgIdx int) layoutCase {
 		body = append(append([]model.Stmt{model.Assign{Name: "acc", E: model.Lit{V: model.Int(0)}}}, body...), model.Text{S: " acc="}, model.Print{E: model.Var{Name: "acc"}})
 	}
 	t.files[layoutName] = body
-	lc := layoutCase{tree: t, data: g.data, layout: layoutName}
+	lc := layoutCase{tree: t, data: g.data, layout: layoutName, reserves: reserves}
 	nPages := 1 + r.Intn(3)
 	for p := 0; p < nPages; p++ {
 		name := []string{"home", "sub/about", "a/b/c"}[p]
@@ -148,8 +151,16 @@ func init() {
 						stmts = append(stmts, model.Insert{Name: "nowhere", E: model.Lit{V: model.Int(1)}})
 					case 1: // several undefined inserts
 						stmts = append(stmts, model.Insert{Name: "nowhere", Block: []model.Stmt{model.Text{S: "x"}}}, model.Insert{Name: "also-nowhere", E: model.Lit{V: model.Str("y")}}, model.Insert{Name: "zz", E: model.Lit{V: model.Int(2)}})
-					case 2: // the same insert twice
-						stmts = append(stmts, model.Insert{Name: "r0", E: model.Lit{V: model.Int(1)}}, model.Insert{Name: "r0", Block: []model.Stmt{model.Text{S: "again"}}})
+					case 2: // the same insert twice, after the @use, around it or before it
+						dup1, dup2 := model.Insert{Name: lc.reserves[0], E: model.Lit{V: model.Int(1)}}, model.Insert{Name: lc.reserves[0], Block: []model.Stmt{model.Text{S: "again"}}}
+						switch r.Intn(3) {
+						case 0:
+							stmts = append(stmts, dup1, dup2)
+						case 1:
+							stmts = append(append([]model.Stmt{dup1}, stmts...), dup2)
+						default:
+							stmts = append([]model.Stmt{dup2, dup1}, stmts...)
+						}
 					case 3: // the layout file does not exist
 						for k, s := range stmts {
 							switch n := s.(type) {
@@ -176,7 +187,7 @@ func init() {
 						stmts = []model.Stmt{model.Use{Name: lc.layout}, model.Text{S: "page text"}}
 					case 5: // an undefined insert into a layout that has no reserve at all
 						lc.tree.files[lc.layout] = []model.Stmt{model.Text{S: "bare layout"}}
-						stmts = []model.Stmt{model.Use{Name: lc.layout}, model.Insert{Name: "r0", E: model.Lit{V: model.Int(1)}}}
+						stmts = []model.Stmt{model.Use{Name: lc.layout}, model.Insert{Name: lc.reserves[0], E: model.Lit{V: model.Int(1)}}}
 					}
 					lc.tree.files[page] = stmts
 					files := lc.tree.sources(model.Style{Layout: model.SpaceLayout})
